@@ -199,12 +199,10 @@ def namedInvals (f : Func) (uin : Nat → Nat → K) (uout : Nat → Nat → K) 
 def inputVector (f : Func) (uin : Nat → Nat → K) : Nat → Nat → K :=
   fun i j => uin (f.inputVars.getD i f.args.length) j
 
-/-- The states of an implicit function appear in the signature in the order of their residuals. -/
+/-- The states of an implicit function appear in the signature in the order of their residuals
+(= the order of the output vector). -/
 def Func.statesInOrder (f : Func) : Bool :=
-  (List.range f.args.length).all fun p =>
-    match f.role p with
-    | .state k => rankBefore Arg.isState f.args p == k
-    | _ => true
+  f.stateArgs == (List.range f.rets.length).map f.stateOfResid
 
 /-! ### Values -/
 
